@@ -125,7 +125,7 @@ def gen_limits(rng, objs, opts):
 
 def gen_common_opts(rng, objs, allow_transpose=True):
     o = dict(OPT_DEFAULTS)
-    o["df"] = rng.choice([None, None, None, "same", "shuffled", "modified", "subset", "plain"])
+    o["df"] = rng.choice([None, None, None, "same", "shuffled", "modified", "subset", "plain", "counts"])
     o["df_seed"] = rng.randrange(1000)
     o["transpose"] = allow_transpose and rng.random() < 0.5
     o["pre_plot"] = allow_transpose and rng.random() < 0.25
@@ -137,6 +137,8 @@ def gen_common_opts(rng, objs, allow_transpose=True):
     drawn = [-0.5 * x + 1.25 + 0.001 * k for k, x in enumerate(objs)] if o["df"] == "modified" else objs
     if o["df"] == "modified" and drawn:
         drawn = drawn + [min(drawn) - 0.001 * len(drawn), max(drawn) + 0.001 * len(drawn)]   # row order of data() is not known here
+    if o["df"] == "counts":
+        drawn = [float(1 + 3 * k) for k in range(len(objs))]      # an INTEGER-typed custom metric (visit counts) in the objective column
     gen_limits(rng, drawn, o)
     return o
 
@@ -200,6 +202,12 @@ def gen_cvt(rng, tier):
     if ndim == 2 and rng.random() < 0.3:
         ranges[1] = list(ranges[0])      # both measures share one range (swapping the axes leaves the bounds unchanged)
     cents = gen_centroids(rng, n, ranges)
+    if ndim == 1 and rng.random() < 0.35:
+        # centroids exactly ON the archive's bounds (np.linspace(lo, hi, n) as custom centroids does that)
+        i0 = rng.randrange(n)
+        cents[i0] = [ranges[0][0]]
+        if n >= 2 and rng.random() < 0.6:
+            cents[(i0 + 1 + rng.randrange(n - 1)) % n] = [ranges[0][1]]
     fill, chosen = pick_fill(rng, n)
     objs = gen_objectives(rng, len(chosen))
     adds = [[list(cents[c]), ob] for c, ob in zip(chosen, objs)]
@@ -365,6 +373,9 @@ def make_df(archive, opts):
         return df.sample(frac=1, random_state=opts["df_seed"])
     if mode == "modified":   # custom metric in the objective column
         df["objective"] = (-0.5 * df["objective"].astype(np.float64) + 1.25 + 0.001 * np.arange(len(df))).astype(df["objective"].dtype)
+        return df
+    if mode == "counts":
+        df["objective"] = (1 + 3 * np.arange(len(df))).astype(np.int64)
         return df
     if mode == "subset":
         return df.iloc[(opts["df_seed"] % 2)::2]
